@@ -125,7 +125,9 @@ func buildReference(rep *Report, s Setup, g *Gen, dir string, from, to uint32, b
 			run.Chain = run.Chain[:len(run.Chain)-1]
 			res = run.Step(&BlockSpec{Height: h, Time: BlockTime(h)})
 			if !res.ImplOK || res.Diff != "" {
-				rep.Note("infrastructure: reference chain cannot pass height %d: %s", h, res.ImplMsg)
+				path := WriteReplay(rep.Property, "reference", Replay{Property: rep.Property, Scenario: rep.Scenario, Seed: g.Seed, Setup: s,
+					What: fmt.Sprintf("reference chain cannot pass height %d even with an empty block", h), Detail: []string{res.Diff, res.ImplMsg, res.ModelAns}, Blocks: ChainJSON(run.Chain)})
+				rep.Disagree("reference:stuck:"+res.ImplClass, fmt.Sprintf("h=%d %s %s", h, res.Diff, res.ImplMsg), path)
 				return nil, false
 			}
 		}
